@@ -24,9 +24,12 @@ class MDCPDPOracle:
         self.n, self.h, self.Dn = n, n // 2, D
         self.caps = row["caps"]  # one vehicle per depot
         self.N = n + D
+        # the environment measures |difference| component-wise before taking the norm: same argument form here
+        X, Y = row["X"], row["Y"]
+        self.D = [[0.0 if i == j else O.euclid(T.s_abs(s_sub(X[j], X[i])), T.s_abs(s_sub(Y[j], Y[i]))) for j in range(len(X))] for i in range(len(X))]
 
     def start(self):
-        return OState(visited=[False] * self.N, carry=0, vehicle=0)
+        return OState(visited=[False] * self.N, carry=0, vehicle=0, cur=0, length=0.0)
 
     def step(self, st, a, active, t):
         D, h = self.Dn, self.h
@@ -40,26 +43,29 @@ class MDCPDPOracle:
         # the vehicle on the road is the one of the depot visited last ("must start from a depot")
         vehicle = s_where(isdep, a, st["vehicle"])
         st.flag(act, "capacity (more orders carried than the vehicle of the depot it started from holds)", s_gt(newcarry, pick(vehicle, self.caps)))
-        st.upd(active, visited=[s_or(v, s_and(s_not(isdep), s_eq(a, k))) for k, v in enumerate(st["visited"])], carry=newcarry, vehicle=vehicle)
+        # reward_mode="minsum", problem_mode="close": every leg driven counts, except repositioning from one depot to another
+        leg = s_where(s_and(isdep, s_lt(st["cur"], D)), 0.0, pick2(st["cur"], a, self.D))
+        st.upd(active, visited=[s_or(v, s_and(s_not(isdep), s_eq(a, k))) for k, v in enumerate(st["visited"])], carry=newcarry, vehicle=vehicle,
+               cur=a, length=s_add(st["length"], leg))
 
     def complete(self, st):
         return all_(st["visited"][self.Dn:])
 
     def objective(self, st):
-        return 0.0
+        return O.s_neg(st["length"])
 
 
 class MDCPDPSpec(Spec):
     name, module, cls = "mdcpdp", "rl4co.envs.routing.mdcpdp.env", "MDCPDPEnv"
     variants = ("d1", "d2", "d3")
     checker = False
-    has_reward = False  # objective depends on the (undocumented) vehicle bookkeeping: C03 not claimed for this environment
+    has_reward = True  # reward_mode="minsum" only (total length driven); the lateness modes depend on undocumented bookkeeping
 
     def nd(self, variant):
         return int(variant[1:])
 
     def env_kwargs(self, n, variant):
-        return {"generator_params": {"num_loc": n, "num_depot": self.nd(variant)}, "check_solution": False}
+        return {"generator_params": {"num_loc": n, "num_depot": self.nd(variant)}, "check_solution": False, "reward_mode": "minsum"}
 
     def n_actions(self, n, variant):
         return n + self.nd(variant)
